@@ -248,8 +248,13 @@ func fakeHash(seed int) util.Uint256 {
 
 // policyInt reads an integer getter of native Policy through a VM run (independent of the Go-level accessors).
 func (k *kit) policyInt(method string, args ...any) (int64, error) {
+	return k.nativeInt(nativehashes.PolicyContract, method, args...)
+}
+
+// nativeInt runs a read-only getter of a native contract that returns an integer.
+func (k *kit) nativeInt(contract util.Uint160, method string, args ...any) (int64, error) {
 	w := io.NewBufBinWriter()
-	emit.AppCall(w.BinWriter, nativehashes.PolicyContract, method, callflag.ReadStates, args...)
+	emit.AppCall(w.BinWriter, contract, method, callflag.ReadStates, args...)
 	script := w.Bytes()
 	tx := transaction.New(script, 0)
 	tx.Nonce = 0
@@ -393,6 +398,13 @@ func (k *kit) template(spec TxSpec, m mods) (*transaction.Transaction, []rsigner
 				// many keys at a high attribute fee cost more than any account of the cast holds: keep the instance payable
 				if base, err := k.policyInt("getAttributeFee", int64(transaction.NotaryAssistedT)); err == nil && base*int64(nk+1) > 50_0000_0000 {
 					nk = mod(a.N, 4)
+				} else if err == nil && len(rs) >= 2 && rs[0].kind == "notary" {
+					// Notary pays (it is the sender): the fees come out of the second signer's DEPOSIT, which has to
+					// cover them (Notary.verify), or the instance is not a valid one. 5 GAS are left for size,
+					// verification and system fee.
+					if dep, err := k.nativeInt(nativehashes.Notary, "balanceOf", rs[1].hash); err == nil && base*int64(nk+1) > dep-5_0000_0000 {
+						nk = mod(a.N, 4)
+					}
 				}
 				tx.Attributes = append(tx.Attributes, transaction.Attribute{Type: transaction.NotaryAssistedT, Value: &transaction.NotaryAssisted{NKeys: uint8(nk)}})
 			}
